@@ -17,12 +17,30 @@ void Group::replaceEntities(const std::vector<T> &entities)
     base::IGroup *ig = backend();
     ObjectType ot = objectToType<T>::value;
 
-    while (ig->entityCount(ot) > 0) {
-        ig->removeEntity(ig->getEntity<typename objectToType<T>::backendType>(0));
+    // the members as they are: a vector that is refused (an entity of another block, no
+    // entity at all) must leave them as they were
+    std::vector<T> before;
+    for (ndsize_t i = 0; i < ig->entityCount(ot); i++) {
+        before.push_back(T(ig->getEntity<typename objectToType<T>::backendType>(i)));
     }
 
-    for (const auto &e : entities) {
-        ig->addEntity(e);
+    try {
+        while (ig->entityCount(ot) > 0) {
+            ig->removeEntity(ig->getEntity<typename objectToType<T>::backendType>(0));
+        }
+        for (const auto &e : entities) {
+            if (!ig->hasEntity(e)) {
+                ig->addEntity(e);
+            }
+        }
+    } catch (...) {
+        while (ig->entityCount(ot) > 0) {
+            ig->removeEntity(ig->getEntity<typename objectToType<T>::backendType>(0));
+        }
+        for (const auto &e : before) {
+            ig->addEntity(e);
+        }
+        throw;
     }
 }
 
